@@ -72,8 +72,11 @@ def f64x3Field : VField (BitVec 64 × BitVec 64 × BitVec 64) where
   mulBase := fun a b => Gen.F64.ext3MulBase F64.baseOps a (Gen.F64.new (BitVec.ofNat 64 b))
   exp := fun x n => expVartime F64.cube x n
 
+/-- f62 through the generated limb kernels; `neg` (`impl Neg`), `==` (`impl PartialEq`) and `inv`
+    (binary extended Euclid, loops bounded by fuel) are the regenerated definitions, not the
+    hand-written ones of `F62.baseOps` (which inverts by Fermat exponentiation) -/
 def f62Field : VField (BitVec 64) where
-  ops := F62.baseOps
+  ops := { F62.baseOps with neg := Gen.F62.neg, beq := fun a b => Gen.F62.eq a b, inv := Gen.F62.inv }
   ofCanon := fun a => Gen.F62.new (BitVec.ofNat 64 a.head!)
   toCanon := fun x => [(Gen.F62.as_int x).toNat]
   mulBase := fun a b => Gen.F62.mul a (Gen.F62.new (BitVec.ofNat 64 b))
@@ -110,9 +113,88 @@ def f128x2Field : VField (BitVec 128 × BitVec 128) where
 
 def parseElems (ws : List String) : Option (List (List Nat)) := ws.mapM parseNatList
 
+/-! ### `rep` requests: operands built by operation chains (non-canonical stored words) -/
+
+def tf (b : Bool) : String := if b then "t" else "f"
+
+/-- the element denoted by an operand term `<tag>:<elem>[:<elem>]` (same table as `term_build` in
+    harness/src/c10.rs) -/
+def buildTerm {F} (v : VField F) (tag : String) (es : List (List Nat)) : Option F :=
+  let o := v.ops
+  match tag, es with
+  | "c", [a] => some (v.ofCanon a)
+  | "xnx", [a] => let x := v.ofCanon a; some (o.add x (o.neg x))
+  | "nxx", [a] => let x := v.ofCanon a; some (o.add (o.neg x) x)
+  | "xmx", [a] => let x := v.ofCanon a; some (o.sub x x)
+  | "nz", [_] => some (o.neg o.zero)
+  | "nzz", [a] => let x := v.ofCanon a; some (o.neg (o.add x (o.neg x)))
+  | "zmz", [_] => some (o.sub o.zero o.zero)
+  | "dmd", [a] => let x := v.ofCanon a; some (o.sub (o.double x) (o.add x x))
+  | "xp1", [a] => some (o.add (v.ofCanon a) o.one)
+  | "neg", [a] => some (o.neg (v.ofCanon a))
+  | "nn", [a] => some (o.neg (o.neg (v.ofCanon a)))
+  | "add", [a, b] => some (o.add (v.ofCanon a) (v.ofCanon b))
+  | "sub", [a, b] => some (o.sub (v.ofCanon a) (v.ofCanon b))
+  | "mul", [a, b] => some (o.mul (v.ofCanon a) (v.ofCanon b))
+  | "apm", [a, b] => let y := v.ofCanon b; some (o.sub (o.add (v.ofCanon a) y) y)
+  | _, _ => none
+
+def parseTerm {F} (v : VField F) (s : String) : Option F :=
+  match s.splitOn ":" with
+  | tag :: rest => do
+    let es ← rest.mapM parseNatList
+    buildTerm v tag es
+  | [] => none
+
+/-- `rep <op> <term> [<term>] = <expected>` → `<canon> eq=<r == new(expected)> bytes=<to_bytes(r) is the
+    canonical encoding of expected>`; `to_bytes` is modelled as the little-endian bytes of `as_int` -/
+def runRep {F} (v : VField F) (op : String) (ws : List String) : Option String :=
+  let o := v.ops
+  let fin (r : F) (e : String) : Option String := do
+    let exp ← parseNatList e
+    some s!"{showElem (v.toCanon r)} eq={tf (o.beq r (v.ofCanon exp))} bytes={tf (v.toCanon r == exp)}"
+  match op, ws with
+  | "eq", [a, b] => do
+    let x ← parseTerm v a
+    let y ← parseTerm v b
+    some (tf (o.beq x y))
+  | _, [a, "=", e] => do
+    let x ← parseTerm v a
+    match op with
+    | "id" => fin x e
+    | "neg" => fin (o.neg x) e
+    | "double" => fin (o.double x) e
+    | "square" => fin (o.square x) e
+    | "inv" => fin (o.inv x) e
+    | "conj" => fin (o.conjugate x) e
+    | _ => none
+  | _, [a, b, "=", e] => do
+    let x ← parseTerm v a
+    let y ← parseTerm v b
+    match op with
+    | "add" => fin (o.add x y) e
+    | "sub" => fin (o.sub x y) e
+    | "mul" => fin (o.mul x y) e
+    | "div" => fin (o.mul x (o.inv y)) e
+    | _ => none
+  | _, _ => none
+
 /-- `c10 <field> <op> <elem>...`  (elements: comma-separated canonical coefficients)
-    `c10 f64i <op> <inner>...`   (raw Montgomery words in, raw words out) -/
+    `c10 f64i <op> <inner>...`   (raw Montgomery words in, raw words out)
+    `c10 <field> rep <op> <term> [<term>] = <expected>` / `c10 <field> rep eq <term> <term>` -/
 def handleFields : List String → String
+  | fld :: "rep" :: op :: args =>
+    let res := match fld with
+      | "f64" => runRep f64Field op args
+      | "f64x2" => runRep f64x2Field op args
+      | "f64x3" => runRep f64x3Field op args
+      | "f62" => runRep f62Field op args
+      | "f62x2" => runRep f62x2Field op args
+      | "f62x3" => runRep f62x3Field op args
+      | "f128" => runRep f128Field op args
+      | "f128x2" => runRep f128x2Field op args
+      | _ => none
+    res.getD "bad-op"
   | "f64i" :: op :: args =>
     match args.mapM String.toNat? with
     | none => "bad-op"
